@@ -427,6 +427,35 @@ class Ctx:
         }
         if not ev["coverage"]["samples"]:
             ev["coverage"]["samples"] = ["(none)"]
+        # the typed keys of the evidence schema: a check that put a breakdown where a count belongs keeps the breakdown
+        # under <key>_detail and the total under <key> (a file that does not validate is treated as no evidence)
+        cov = ev["coverage"]
+        for k in ("evaluations", "distinct_nontrivial", "states", "transitions", "traces_validated_against_impl", "obligations",
+                  "discharged", "programs", "disagreements_checked"):
+            v = cov.get(k)
+            if v is None or (isinstance(v, int) and not isinstance(v, bool) and v >= 0):
+                continue
+            cov[k + "_detail"] = v
+            if isinstance(v, dict):
+                cov[k] = sum(x for x in v.values() if isinstance(x, int) and not isinstance(x, bool) and x > 0)
+            elif isinstance(v, (list, tuple, set)):
+                cov[k] = len(v)
+            else:
+                try:
+                    cov[k] = max(0, int(v))
+                except Exception:
+                    cov[k] = 0
+            sys.stderr.write("vcheck: coverage.%s was not a non-negative integer; kept under %s_detail\n" % (k, k))
+        for k in ("rule", "checker_cmd", "explanation"):
+            if k in cov and not isinstance(cov[k], str):
+                cov[k] = json.dumps(cov[k], default=str)
+        if "trusted_base" in cov and not (isinstance(cov["trusted_base"], list) and all(isinstance(x, str) for x in cov["trusted_base"])):
+            tb = cov["trusted_base"]
+            cov["trusted_base"] = [x if isinstance(x, str) else json.dumps(x, default=str) for x in (tb if isinstance(tb, list) else [tb])]
+        if "exhaustive" in cov and not isinstance(cov["exhaustive"], bool):
+            cov["exhaustive"] = bool(cov["exhaustive"])
+        if not isinstance(cov.get("samples"), list):
+            cov["samples"] = [cov.get("samples")]
         os.makedirs(EVIDENCE, exist_ok=True)
         with open(os.path.join(EVIDENCE, self.prop + ".json"), "w") as f:
             json.dump(ev, f, indent=1, sort_keys=True, default=str)
